@@ -1,6 +1,8 @@
 """Fresh-interpreter runner for C20: scans one stream (definition messages + data messages) with
 generate_bufr_message and prints what was decoded, as JSON.
-    python -m mon.c20_runner <file with hex of the stream>
+    python -m mon.c20_runner <file with hex of the stream> [variant]
+variant: 'filter' = scan with an all-accepting filter expression, 'continue' = continue_on_error=True,
+'unwired' = wire_template_data=False (options that must not change how definitions govern what follows)
 """
 import json
 import logging
@@ -20,7 +22,10 @@ def main(argv):
         stream = bytes.fromhex(f.read().strip())
     out = dict(messages=[], error=None)
     try:
-        for m in generate_bufr_message(Decoder(), stream):
+        variant = argv[1] if len(argv) > 1 else 'default'
+        kw = {'filter': dict(filter_expr='${%length} > 0 and ${%edition} >= 2'), 'continue': dict(continue_on_error=True),
+              'unwired': dict(wire_template_data=False)}.get(variant, {})
+        for m in generate_bufr_message(Decoder(), stream, **kw):
             td = m.template_data.value
             out['messages'].append(dict(
                 data_category=m.data_category.value,
